@@ -178,7 +178,7 @@ class GenDir:
                 self.files[ef]['elements'][z]['components'].append(c)
             self.broken = (ef, z)
         elif how == 'missing-file':
-            c = rng.choice(comps)
+            c = rng.choice([k for k in comps if set(self.files[k]['elements']) & self.used.get(k, set())] or comps)
             del self.files[c]
             self.broken = (c, None)
         elif how == 'element-missing-in-element-file':
